@@ -3,7 +3,11 @@ package main
 import (
 	"bytes"
 	"fmt"
+	"github.com/longportapp/openapi-protocol/go/verifhook"
+	"runtime"
 	"strings"
+	"sync"
+	"time"
 
 	"github.com/Allenxuxu/ringbuffer"
 	protocol "github.com/longportapp/openapi-protocol/go"
@@ -198,6 +202,49 @@ func roundtripCase(e *emitter, p *pkt, thr int, inDomain bool, class string) {
 	} else if d := equivalent(p, orig, q2); d != "" {
 		e.fail(idx, key+kindOf(p), d)
 	}
+	// the same through the streaming entry point fed in TWO pieces on one context (every cut of small frames; the cuts around the
+	// header fields and the last bytes of larger ones), followed by the first byte of a next frame
+	cuts := []int{}
+	if len(frame) <= 400 {
+		for c := 1; c < len(frame); c++ {
+			cuts = append(cuts, c)
+		}
+	} else {
+		for _, c := range []int{1, 2, 3, 5, 8, 11, 12, 13, 15, 16, 17, len(frame) / 2, len(frame) - 25, len(frame) - 17, len(frame) - 16, len(frame) - 9, len(frame) - 8, len(frame) - 2, len(frame) - 1} {
+			if c > 0 && c < len(frame) {
+				cuts = append(cuts, c)
+			}
+		}
+	}
+	for _, c := range cuts {
+		var q3 *protocol.Packet
+		r4 := guard(func() string {
+			ctx := newCtx(p.version, protocol.CodecProtobuf)
+			rb := ringbuffer.New(64)
+			rb.Write(frame[:c])
+			if _, done, err := proto(p.version).Unpack(ctx, rb); err != nil || done {
+				return fmt.Sprintf("first piece (%d of %d bytes): done=%v err=%v", c, len(frame), done, err)
+			}
+			rb.Write(frame[c:])
+			rb.Write(frame[:1]) // the first byte of the next frame is already there
+			pk3, done, err := proto(p.version).Unpack(ctx, rb)
+			if err != nil || !done {
+				return fmt.Sprintf("second piece: done=%v err=%v", done, err)
+			}
+			if rb.Length() != 1 {
+				return fmt.Sprintf("left=%d (want the 1 byte of the next frame)", rb.Length())
+			}
+			q3 = pk3
+			return "ok"
+		})
+		if q3 == nil {
+			e.fail(idx, key+":cut", fmt.Sprintf("frame of %d bytes fed in two pieces cut at %d: %s", len(frame), c, r4))
+			break
+		} else if d := equivalent(p, orig, q3); d != "" {
+			e.fail(idx, key+":cut"+kindOf(p), fmt.Sprintf("cut at %d: %s", c, d))
+			break
+		}
+	}
 }
 
 func kindOf(p *pkt) string {
@@ -341,6 +388,119 @@ func genC01(e *emitter, tier string, seed uint64) map[string]interface{} {
 			p.gzip = true
 		}
 		roundtripCase(e, p, 0, false, "outside-domain")
+	}
+	// the round trip holds for every caller when several goroutines encode and decode at the same time (each with its own context and
+	// packets; the codec's pools are the only shared state): compressed and plain bodies, both versions, both decoders
+	{
+		const G, N = 16, 100
+		type job struct {
+			p    *pkt
+			thr  int
+			orig []byte
+		}
+		jobs := make([][]job, G)
+		for g := 0; g < G; g++ {
+			for i := 0; i < N; i++ {
+				p := mk(1+(g+i)%2, types[(g+i)%3], i%4 == 0, (g+i)%3, rg.pick([]int{40, 9000, 70000, 70000, 300000}))
+				jobs[g] = append(jobs[g], job{p, []int{1, 1, 1024, 0}[i%4], p.body.bytes()})
+			}
+		}
+		bad := make([]string, G)
+		var wg sync.WaitGroup
+		for g := 0; g < G; g++ {
+			wg.Add(1)
+			go func(g int) {
+				defer wg.Done()
+				defer func() {
+					if x := recover(); x != nil {
+						bad[g] = fmt.Sprintf("goroutine %d: the codec panicked under concurrent use: %v", g, x)
+					}
+				}()
+				for i, j := range jobs[g] {
+					ctx := newCtx(j.p.version, protocol.CodecProtobuf)
+					f, err := proto(j.p.version).Pack(ctx, j.p.build(protocol.CodecProtobuf), protocol.GzipSize(j.thr))
+					if err != nil {
+						bad[g] = fmt.Sprintf("goroutine %d packet %d: Pack failed: %v", g, i, err)
+						return
+					}
+					var q *protocol.Packet
+					if i%2 == 0 {
+						q, err = proto(j.p.version).UnpackBytes(newCtx(j.p.version, protocol.CodecProtobuf), f)
+					} else {
+						var done bool
+						q, done, err = proto(j.p.version).Unpack(newCtx(j.p.version, protocol.CodecProtobuf), ringbuffer.NewWithData(append([]byte{}, f...)))
+						if err == nil && !done {
+							err = fmt.Errorf("need more data on a whole frame")
+						}
+					}
+					if err != nil {
+						bad[g] = fmt.Sprintf("goroutine %d packet %d (v%d, %d body bytes, threshold %d): its own frame does not decode: %v", g, i, j.p.version, len(j.orig), j.thr, err)
+						return
+					}
+					if d := equivalent(j.p, j.orig, q); d != "" {
+						bad[g] = fmt.Sprintf("goroutine %d packet %d (v%d, %d body bytes, threshold %d): %s", g, i, j.p.version, len(j.orig), j.thr, d)
+						return
+					}
+				}
+			}(g)
+		}
+		wg.Wait()
+		idx := e.op("gz.note concurrent roundtrip goroutines=16 packets=100", "done", "concurrent", true)
+		for _, b := range bad {
+			if b != "" {
+				e.fail(idx, "roundtrip_concurrent", b)
+				break
+			}
+		}
+	}
+	// forced schedule (hook `pack:after-compress`, one processor): caller A is parked between the compression of its body and the
+	// assembly of its frame while caller B packs a compressed packet of its own; A's frame must still carry A's body
+	for _, version := range []int{1, 2} {
+		pa := mk(version, "request", false, 0, 5000)
+		pb2 := mk(version, "push", false, 0, 7000)
+		pa.body, pb2.body = bspec{kind: "prng", seed: 11, n: 5000}, bspec{kind: "prng", seed: 22, n: 7000}
+		origA := pa.body.bytes()
+		var frameA []byte
+		var errA error
+		res := guard(func() string {
+			old := runtime.GOMAXPROCS(1)
+			defer runtime.GOMAXPROCS(old)
+			verifhook.Reset()
+			verifhook.Hold("pack:after-compress")
+			done := make(chan struct{})
+			go func() {
+				defer close(done)
+				defer func() { recover() }()
+				frameA, errA = proto(version).Pack(newCtx(version, protocol.CodecProtobuf), pa.build(protocol.CodecProtobuf), protocol.GzipSize(1))
+			}()
+			if !verifhook.WaitParked("pack:after-compress", 1, 5*time.Second) {
+				verifhook.Reset()
+				<-done
+				return "hook-not-reached"
+			}
+			verifhook.Detach("pack:after-compress")
+			for i := 0; i < 4; i++ {
+				proto(version).Pack(newCtx(version, protocol.CodecProtobuf), pb2.build(protocol.CodecProtobuf), protocol.GzipSize(1))
+			}
+			verifhook.ReleaseDetached("pack:after-compress")
+			<-done
+			verifhook.Reset()
+			return "ok"
+		})
+		idx := e.op(fmt.Sprintf("gz.note concurrent forced-schedule v=%d", version), "done", "concurrent", true)
+		switch {
+		case res != "ok":
+			e.fail(idx, "roundtrip_concurrent", "forced schedule could not be set up: "+res)
+		case errA != nil || frameA == nil:
+			e.fail(idx, "roundtrip_concurrent", fmt.Sprintf("Pack of the parked caller failed: %v", errA))
+		default:
+			q, err := proto(version).UnpackBytes(newCtx(version, protocol.CodecProtobuf), frameA)
+			if err != nil {
+				e.fail(idx, "roundtrip_concurrent", fmt.Sprintf("v%d: the frame of a caller that was descheduled between compressing its body and assembling its frame (another caller packed meanwhile) does not decode: %v", version, err))
+			} else if d := equivalent(pa, origA, q); d != "" {
+				e.fail(idx, "roundtrip_concurrent", fmt.Sprintf("v%d: a caller descheduled between compressing its body and assembling its frame got another caller's bytes: %s", version, d))
+			}
+		}
 	}
 	return map[string]interface{}{}
 }
